@@ -169,8 +169,8 @@ theorem digits_noPair (n : Nat) : hasPair 110 58 (decDigits n) = false := by
   revert this; decide
 
 /-- the `MSF:` line is not taken for a `Name:` line: it does not contain `Len:` -/
-theorem msfInfoLine_noName (date : Bytes) (A : Alignment) (h : HdrOK A.basename date) :
-    msfName (msfInfoLine date A) = none := by
+theorem msfInfoLine_noLen (date : Bytes) (A : Alignment) (h : HdrOK A.basename date) :
+    hasSub (ascii "Len:") (msfInfoLine date A) = false := by
   have hp : hasPair 110 58 (msfInfoLine date A) = false := by
     unfold msfInfoLine
     have hb : hasPair 110 58 (32 :: A.basename) = false := by
@@ -186,12 +186,15 @@ theorem msfInfoLine_noName (date : Bytes) (A : Alignment) (h : HdrOK A.basename 
       hasPair_append _ _ _ _ (by decide), hasPair_append _ _ _ _ (digits_head _), hasPair_append _ _ _ _ (by decide)]
     simp only [hb, htc, digits_noPair, h.datePair, Bool.or_false]
     decide
-  have hl : hasSub (ascii "Len:") (msfInfoLine date A) = false := by
-    cases hs : hasSub (ascii "Len:") (msfInfoLine date A) with
-    | false => rfl
-    | true =>
-      have := hasPair_of_hasSub 110 58 _ _ (by decide) hs
-      rw [hp] at this; exact absurd this (by decide)
+  cases hs : hasSub (ascii "Len:") (msfInfoLine date A) with
+  | false => rfl
+  | true =>
+    have := hasPair_of_hasSub 110 58 _ _ (by decide) hs
+    rw [hp] at this; exact absurd this (by decide)
+
+theorem msfInfoLine_noName (date : Bytes) (A : Alignment) (h : HdrOK A.basename date) :
+    msfName (msfInfoLine date A) = none := by
+  have hl := msfInfoLine_noLen date A h
   unfold msfName
   split
   · simp [hl]
